@@ -33,6 +33,8 @@ static std::vector<Doc> corpus(int arch) {
 	r.push_back({"arr4", V::arr({V::integer(1), V::integer(-2), V::integer(300), V::integer(70000)})});
 	r.push_back({"obj_nested", V::map({{V::str("o"), V::map({{V::str("i"), V::integer(7)}, {V::str("s"), V::str("q")}})}, {V::str("l"), V::arr({V::integer(1), V::str("two")})}, {V::str("z"), V::integer(9)}})});
 	r.push_back({"obj_long", V::map({{V::str("h"), V::integer(1)}, {V::str("s"), V::str(std::string(600, 'L'))}, {V::str("z"), V::integer(9)}})});   // a value longer than two reader chunks
+	// numbers whose shortest decimal form has 16-17 significant digits or an extreme exponent: the slow, correctly rounding path of a number parser
+	r.push_back({"obj_doubles", V::map({{V::str("a"), V::dbl(3421.8506787330318)}, {V::str("b"), V::dbl(5.409760742964738e124)}, {V::str("c"), V::dbl(1.3927926388013963e-143)}, {V::str("d"), V::dbl(1.7976931348623157e308)}, {V::str("e"), V::dbl(4.9406564584124654e-324)}, {V::str("z"), V::integer(9)}})});
 	r.push_back({"obj_text", V::map({{V::str("s"), V::str("a\"b\\c<d>&e é€\xF0\x9F\x98\x80")}, {V::str("f"), V::dbl(0.1)}, {V::str("z"), V::integer(9)}})});
 	if (arch == tl::MsgPack) {
 		r.push_back({"obj_bin_ts", V::map({{V::str("b"), V::bin(std::string("\x00\x01\x02", 3))}, {V::str("t"), V::ts(1, 5)}, {V::str("n"), V::nil()}, {V::str("u"), V::integer(static_cast<ref::i128>(UINT64_MAX))}})});
